@@ -66,7 +66,9 @@ def harvest(d: str, prop: str, name: str, hits: list) -> str:
         good = sh([PY, RUN, prop, "--replay", path], env=dict(os.environ, VERIF_REPO="/repo"))
         if bad.returncode == 1 and good.returncode == 0:
             os.makedirs(f"{VERIF}/corpus/{prop}", exist_ok=True)
-            shutil.copyfile(path, f"{VERIF}/corpus/{prop}/{name}.json")
+            dst = f"{VERIF}/corpus/{prop}/{name}.json"
+            if os.path.abspath(path) != dst:  # (the detection may be the replay of this very saved case)
+                shutil.copyfile(path, dst)
             return "saved"
         why = f"replay-rc-mutant={bad.returncode}-repo={good.returncode}"
     return why
@@ -109,11 +111,18 @@ def apply_patch(patch: str):
     return f
 
 
+# a later fix that touches the same lines has to be reverted first
+REVERT_FIRST = {"cf0f558": ["6da2c5a"]}
+
+
 def apply_revert(commit: str):
     def f(d: str) -> bool:
-        p = sh(["git", "-C", "/repo", "show", "-R", "--format=", commit]).stdout
-        r = subprocess.run(["git", "-C", d, "apply", "-3", "-"], input=p, text=True, capture_output=True)
-        return r.returncode == 0
+        for c in REVERT_FIRST.get(commit, []) + [commit]:
+            p = sh(["git", "-C", "/repo", "show", "-R", "--format=", c]).stdout
+            r = subprocess.run(["git", "-C", d, "apply", "-3", "-"], input=p, text=True, capture_output=True)
+            if r.returncode != 0:
+                return False
+        return True
 
     return f
 
